@@ -224,3 +224,37 @@ func TestConfirmTopLevelBoxClosedAfterHandlerError(t *testing.T) {
 		t.Fatalf("xpacket callback got %q, want %q", got, packet)
 	}
 }
+
+// C11 NONNEG: an iloc entry that places the Exif item BEFORE the mdat payload makes newExifBox ask the mdat box to
+// skip a negative count. (*box).Discard accepted it (remain >= n holds for every negative n) and enlarged the
+// remaining size of the box; the close that follows then ran past the end of the mdat box, and the xpacket box
+// behind it was never delivered.
+func TestConfirmNegativeDiscard(t *testing.T) {
+	xpktUUID := []byte{0xbe, 0x7a, 0xcf, 0xcb, 0x97, 0xa9, 0x42, 0xe8, 0x9c, 0x71, 0x99, 0x94, 0x91, 0xe3, 0xaf, 0xac}
+	packet := []byte("<x:xmpmeta>0123456789</x:xmpmeta>")
+	iloc := box("iloc", be32(0), []byte{0x44, 0x00}, be16(1), // version 0, offset_size 4, length_size 4, 1 item
+		be16(0), be16(0), be16(1), be32(20), be32(32)) // item 0 (the default Exif id), 1 extent at file offset 20
+	file := bytes.Join([][]byte{
+		ftyp("heic"),
+		box("meta", be32(0), iloc),
+		box("mdat", bytes.Repeat([]byte{0xAA}, 64)),
+		box("uuid", xpktUUID, packet),
+		make([]byte, 64),
+	}, nil)
+	var got []byte
+	r := isobmff.NewReader(bytes.NewReader(file))
+	defer r.Close()
+	r.XMPReader = func(rd io.Reader) error { var err error; got, err = io.ReadAll(rd); return err }
+	r.ExifReader = func(rd io.Reader, h meta.ExifHeader) error { return nil }
+	if err := r.ReadFTYP(); err != nil {
+		t.Fatal(err)
+	}
+	r.ReadMetadata() // meta
+	r.ReadMetadata() // mdat: the item offset lies before the box, an error is fine
+	if err := r.ReadMetadata(); err != nil {
+		t.Fatalf("box after mdat: %v (the reader ran past the end of the mdat box)", err)
+	}
+	if !bytes.Equal(got, packet) {
+		t.Fatalf("xpacket callback got %q, want %q", got, packet)
+	}
+}
